@@ -29,6 +29,11 @@
 (*   C15.SetsDisjoint                 succeeded /\ failed = {}                *)
 (*   C15.SetsCoverAddressed           succeeded \/ failed = components behind *)
 (*                                    the inverters set_power was called for  *)
+(*   C15.FailedSetIsFailedCalls       failed = the components behind the calls *)
+(*                                    that did not succeed (whatever their     *)
+(*                                    set-point, 0 W included), succeeded = the*)
+(*                                    other addressed ones, Success iff no call*)
+(*                                    failed                                   *)
 (*   C15.PVSetpointsWithinBounds      PV: bound <= set-point <= 0             *)
 (* Named cause predicates (deviations):                                      *)
 (*   Dev_PVSucceededPowerFromStaleTarget(r)   the reported succeeded_power    *)
@@ -308,6 +313,11 @@ C_SumsToRequested(r, rq) == Near(r.sp + r.fp + r.ex, rq)
 C_FailedPowerIsFailedSetpoints(r, cl) == Near(r.fp, SumOver(SetPoints(cl), FailedCalls(cl)))
 C_SetsDisjoint(r) == r.succ \cap r.failed = {}
 C_SetsCoverAddressed(r, cl, tp) == r.succ \cup r.failed = Addressed(cl, tp)
+C_FailedSetIsFailedCalls(r, cl, tp) ==
+    LET F == UNION {tp[cl[k].c] : k \in FailedCalls(cl)} IN
+    /\ r.failed = F
+    /\ r.succ = Addressed(cl, tp) \ F
+    /\ (r.type = "Success") <=> (FailedCalls(cl) = {})
 C_PVSetpointsWithinBounds(cl, bd) == \A k \in DOMAIN cl : bd[cl[k].c] - Tol <= cl[k].p /\ cl[k].p <= Tol
 \* auxiliary (not part of the property statement): the succeeded power is what was really set
 A_SucceededIsSucceededSetpoints(r, cl) == Near(r.sp, SumOver(SetPoints(cl), OkCalls(cl)))
@@ -327,6 +337,7 @@ SumsToRequested == Sent => C_SumsToRequested(res, cs.req)
 FailedPowerIsFailedSetpoints == Sent => C_FailedPowerIsFailedSetpoints(res, CallsO)
 SetsDisjoint == Sent => C_SetsDisjoint(res)
 SetsCoverAddressed == Sent => C_SetsCoverAddressed(res, CallsO, cs.topo)
+FailedSetIsFailedCalls == Sent => C_FailedSetIsFailedCalls(res, CallsO, cs.topo)
 PVSetpointsWithinBounds == cs.kind = "pv" => C_PVSetpointsWithinBounds(CallsO, cs.bd)
 SucceededIsSucceededSetpoints ==
     Sent => (A_SucceededIsSucceededSetpoints(res, CallsO) \/ Dev_DistributionLostPower)
